@@ -109,7 +109,7 @@ func runC17(args []string) {
 				}
 				sp += "#" + strings.Join(rs, "/")
 			}
-			add(c17Event(obj{"prefix": pn, "segs": segs, "ref": ref, "spelled": sp}))
+			add(c17Event(normalize(obj{"prefix": pn, "segs": segs, "ref": ref, "spelled": sp})))
 		}
 	}
 	writeSummary(fl.str("summary", ""), obj{"events": tw.n, "rewritten": changed, "samples": samples})
